@@ -298,6 +298,7 @@ class ValueSpecBase(ValueSpec):
     # NOTE(daiyip): CustomTyping will take over the apply logic other than
     # standard apply process. This allows users to plugin complex types as
     # the inputs for Schema.apply and have full control on the transform.
+    custom_typed = None
     if isinstance(value, CustomTyping):
       should_continue, value = value.custom_apply(
           root_path,
@@ -306,6 +307,7 @@ class ValueSpecBase(ValueSpec):
           child_transform=child_transform)
       if not should_continue:
         return value
+      custom_typed = value
 
     if MISSING_VALUE != value and self._transform is not None:
       try:
@@ -315,12 +317,30 @@ class ValueSpecBase(ValueSpec):
             utils.message_on_path(str(e), root_path)
         ).with_traceback(sys.exc_info()[2])
 
+      if value is custom_typed:
+        # The value has been through its custom typing hook (asking it again,
+        # it would report itself as already validated): continue with the
+        # standard steps.
+        return self.skip_user_transform._apply_standard(  # pylint: disable=protected-access
+            value, allow_partial, child_transform, root_path)
       return self.skip_user_transform.apply(
           value,
           allow_partial=allow_partial,
           child_transform=child_transform,
           root_path=root_path)
+    return self._apply_standard(
+        value, allow_partial, child_transform, root_path)
 
+  def _apply_standard(
+      self,
+      value: typing.Any,
+      allow_partial: bool,
+      child_transform: typing.Optional[
+          typing.Callable[[utils.KeyPath, Field, typing.Any], typing.Any]
+      ],
+      root_path: utils.KeyPath,
+  ) -> typing.Any:
+    """Type conversion, sub-class specific apply and validation."""
     if (
         self.type_resolved
         and self.value_type is not None
